@@ -162,7 +162,7 @@ def merge(prop, mod, tier, seed, cells, outs, problems, wall):
         lines.append(f"KNOWN-FINDING: property={prop} {k['what']}")
     replay_paths = []
     if viol:
-        rdir = os.path.join(core.VERIF, "replays")
+        rdir = os.environ.get("GT_REPLAY_DIR", os.path.join(core.VERIF, "replays"))
         os.makedirs(rdir, exist_ok=True)
         for i, m in enumerate(viol):
             d = fails[m][0]
@@ -230,8 +230,9 @@ def merge(prop, mod, tier, seed, cells, outs, problems, wall):
         "wall_s": float(wall),
         "violations": len(viol),
     }
-    os.makedirs(os.path.join(core.VERIF, "evidence"), exist_ok=True)
-    evpath = os.path.join(core.VERIF, "evidence", f"{prop}.json")
+    evdir = os.environ.get("GT_EVIDENCE_DIR", os.path.join(core.VERIF, "evidence"))
+    os.makedirs(evdir, exist_ok=True)
+    evpath = os.path.join(evdir, f"{prop}.json")
     try:
         validate(evidence)
     except Exception as e:  # never write an invalid file silently
